@@ -1323,9 +1323,93 @@ theorem c07_reshare_step_progress (s : State) (U : List Nat) (G : Grp) (e : Nat)
     rw [← a5] at this
     exact this
 
+/-- **The transition round and every later one.** The same, stated from the hand-over: every node of `U` was TOLD
+(`Told`: it was handed the new vault at some earlier time — any time before the transition in the repaired variant,
+before it stored `transition − 1` in the code as it is, see `c07_registration_any_time` / `c07_registration_partial` —
+or it joined with it) and sits at a head `h ≥ transition − 1`. -/
+theorem c07_transition_round_produced (s : State) (U : List Nat) (G : Grp) (e : Nat) (ix : Nat → Nat) (t h c : Nat)
+    (htold : ∀ i ∈ U, Told ⟨G, e, ix i⟩ t (s.node i)) (hge : t - 1 ≤ h)
+    (hup : ∀ i ∈ U, (s.node i).up = true) (hhead : ∀ i ∈ U, (s.node i).head = h)
+    (hU : (∀ i ∈ U, (s.node i).vault = ⟨G, e, ix i⟩) → Side s U G e ix h) (hthr : G.thr ≤ U.length)
+    (hclk : ∀ i ∈ U, (s.node i).clock + 1 = c) (hc : h < c) (hq : Quiet s U h e) :
+    ∀ j ∈ U, h + 1 ≤ (s.fairTick.node j).head :=
+  c07_reshare_step_progress s U G e ix h c
+    (hU (fun i hi => (htold i hi).switched (hup i hi) (by rw [hhead i hi]; exact hge))) hthr hhead hclk hc hq
+
+/-! ### non-vacuity -/
+
+/-- two members, threshold 2 -/
+def exG : Grp := ⟨[⟨0, 0⟩, ⟨1, 1⟩], 2⟩
+
+/-- a group with holes in its indices: 0, 2, 3 -/
+def exGap : Grp := ⟨[⟨0, 0⟩, ⟨1, 2⟩, ⟨2, 3⟩], 3⟩
+
+example : exGap.node? 1 = none ∧ exGap.node? 2 = some ⟨1, 2⟩ ∧ exGap.node? 4 = none ∧ exGap.node? 3 = some ⟨2, 3⟩ := by decide
+
+/-- node 0 of `exGap` (epoch 1) at head 4, clock 5 -/
+def exNode : Node := { up := true, head := 4, clock := 5, vault := ⟨exGap, 1, 0⟩, disk := ⟨exGap, 1, 0⟩ }
+
+/-- the partial of member index 2 made with a share of epoch 1 is admitted; the same index with a share of epoch 0, the
+missing index 1 and the own index are not -/
+example : exNode.admit 0 ⟨1, 2, 1, 5, 0⟩ = .admitted ∧ exNode.admit 0 ⟨1, 2, 0, 5, 0⟩ = .invalid ∧
+    exNode.admit 0 ⟨1, 1, 1, 5, 0⟩ = .notMember ∧ exNode.admit 0 ⟨1, 0, 1, 5, 0⟩ = .ownAddress := by decide
+
+example : (exNode.recvStep 8 0 true ⟨1, 2, 1, 5, 0⟩).held 5 2 = some 1 ∧ (exNode.recvStep 8 0 true ⟨1, 2, 0, 5, 0⟩).held 5 2 = none := by
+  decide
+
+/-- two admitted partials and the own one reach the threshold 3 of the CURRENT vault: round 5 is stored; with an old-share
+partial in place of one of them it is not -/
+example : ((((exNode.aggregate 8 0 1 5).recvStep 8 0 true ⟨1, 2, 1, 5, 0⟩).recvStep 8 0 true ⟨2, 3, 1, 5, 0⟩).head = 5) ∧
+    ((((exNode.aggregate 8 0 1 5).recvStep 8 0 true ⟨1, 2, 1, 5, 0⟩).recvStep 8 0 true ⟨2, 3, 0, 5, 0⟩).head = 4) := by decide
+
+/-- after a resharing {0,1,2} threshold 3 → {0 (index 0), joiner 3 (index 2), joiner 4 (index 5)} threshold 3: ONE remainer
+(fewer than the old threshold), two joiners needed, holes in the new indices; nodes 1 and 2 have left -/
+def exNew : Grp := ⟨[⟨0, 0⟩, ⟨3, 2⟩, ⟨4, 5⟩], 3⟩
+def exIx (i : Nat) : Nat := if i = 0 then 0 else if i = 3 then 2 else 5
+def exT : State :=
+  { cfg := ⟨false⟩, n := 5, nIdx := 8,
+    node := fun k =>
+      if k = 0 ∨ k = 3 ∨ k = 4 then { up := true, head := 4, clock := 4, vault := ⟨exNew, 1, exIx k⟩, disk := ⟨exNew, 1, exIx k⟩ }
+      else { up := false, head := 4, clock := 4, vault := ⟨exGap, 0, 0⟩, disk := ⟨exGap, 0, 0⟩ },
+    conn := fun _ _ => true, msgs := [] }
+
+private theorem exT_side : Side exT [0, 3, 4] exNew 1 exIx 4 := by
+  refine ⟨by decide, ?_, ?_, fun _ _ _ _ => rfl, ?_, ?_, ?_, by decide, ?_⟩
+  · intro i hi; simp at hi; show i < 5; omega
+  · intro i hi; simp at hi; rcases hi with h | h | h <;> subst h <;> rfl
+  · intro i hi; simp at hi; rcases hi with h | h | h <;> subst h <;> rfl
+  · intro i hi; simp at hi; rcases hi with h | h | h <;> subst h <;> decide
+  · intro i hi; simp at hi; rcases hi with h | h | h <;> subst h <;> decide
+  · intro k _ _ _
+    show (exT.node k).head ≤ 4
+    unfold exT
+    simp only
+    split <;> exact Nat.le_refl _
+
+private theorem exT_held (j r k : Nat) : (exT.node j).held r k = none := by
+  unfold exT; simp only; split <;> rfl
+
+private theorem exT_quiet : Quiet exT [0, 3, 4] 4 1 :=
+  ⟨fun m hm _ _ => (by cases hm), fun j _ r k x hx => (by rw [exT_held] at hx; cases hx),
+   fun j _ k x hx => (by rw [exT_held] at hx; cases hx)⟩
+
+example : ∀ j ∈ [0, 3, 4], 4 + 1 ≤ (exT.fairTick.node j).head :=
+  c07_reshare_step_progress exT [0, 3, 4] exNew 1 exIx 4 5 exT_side (by decide)
+    (fun i hi => by simp at hi; rcases hi with h | h | h <;> subst h <;> rfl)
+    (fun i hi => by simp at hi; rcases hi with h | h | h <;> subst h <;> rfl) (by decide)
+    exT_quiet
+
+example : (exT.fairTick.node 0).head = 5 ∧ (exT.fairTick.node 3).head = 5 ∧ (exT.fairTick.node 4).head = 5 := by decide
+
+private theorem exInit_head : ((State.init ⟨false⟩ 2 2 exG).node 0).head < 3 - 1 := by decide
+
+/-- the switch registered in time fires when round `transition − 1` is stored; `Told` is then the new vault -/
+example : Told ⟨exNew, 1, 0⟩ 3 ((((State.init ⟨false⟩ 2 2 exG).apply (.announce 0 ⟨exNew, 1, 0⟩ 3)).run [.advance, .tick 0, .tick 1, .deliverAll]).node 0) :=
+  told_run 0 _ _ (by intro ev hev; simp at hev; rcases hev with h | h | h | h <;> subst h <;> trivial)
+    (c07_registration_partial (State.init ⟨false⟩ 2 2 exG) 0 ⟨exNew, 1, 0⟩ 3 exInit_head)
+
 /-! ### the late registration: kernel-checked witness -/
 
-def exG : Grp := ⟨[⟨0, 0⟩, ⟨1, 1⟩], 2⟩
 
 /-- two nodes, threshold 2, resharing to the same two members (epoch 1) with transition round 2. Node 0 is told before
 round 1 = transition − 1 is produced, node 1 after it stored round 1 — still before the transition time (clock round 1). -/
